@@ -16,6 +16,8 @@
    Leniency, on purpose (none of it can hide a violation: the verdict is CollectorTrace's):
      * a Shutdown() call takes effect at its `ext` line, at its `ext_done` line, or not at all (the
        call reads the state somewhere in between);
+     * signals that are pending together, and notifiers that race for the watcher's buffer, may be
+       served in any order (the log has the order in which they were started);
      * external events logged after the model's run loop has returned are skipped.
 
    A log that cannot be followed is reported as MODEL-DRIFT (exit 0): the property held on the real
@@ -37,10 +39,11 @@ Keep == l' = l
 SInit == Init /\ l = 1 /\ TLCSet(1, 1)
 
 \* the component named by the current line (cfg: CreateComp <- LogComp, StartComp <- LogComp, StopComp <- LogComp)
+StrictMaxBlocked == 4
 LogComp == IF l <= Len(Log) /\ Ln.comp \in Comps THEN Ln.comp ELSE CompSeq[1]
 
 \* ---- lines caused by the run loop
-SGet      == Is("retrieve") /\ Get /\ Ln.gen = gen' /\ (Ln.ok <=> pc' = "create") /\ Ln.st = state' /\ Adv
+SGet      == Is("retrieve") /\ Get /\ Ln.gen = gen' /\ (Ln.ok <=> pc' = "create") /\ Ln.st = state /\ Adv
 SCreate   == /\ Is("create") /\ Ln.comp \in Comps /\ <<gen, Ln.comp>> \notin o.created
              /\ Create /\ Ln.gen = gen /\ (Ln.ok <=> pc' # "bufail") /\ Ln.st = state /\ Adv
 SStartA   == /\ Is("start") /\ Ln.comp \in Comps /\ <<gen, Ln.comp>> \in o.created \ o.begun
@@ -53,7 +56,7 @@ SStopB    == /\ Is("shutdown_end") /\ Ln.comp = cur
              /\ StopB /\ Ln.gen = gen /\ (Ln.ok <=> nfail' = nfail) /\ Adv
 SProvSd   == Is("prov_shutdown") /\ ProvSd /\ Ln.st = state /\ Adv
 SReturn   == Is("run_return") /\ (BuFail \/ RetErr \/ SetClosed) /\ (Ln.ok <=> o'.ret = "nil") /\ Ln.st = state' /\ Adv
-SSilent   == /\ \/ RunBegin \/ SetRunning \/ SelWatch \/ SelAsync \/ SelSignal \/ SelShutdown \/ SelCtx
+SSilent   == /\ \/ RunBegin \/ SetStarting \/ SetRunning \/ SelWatch \/ SelAsync \/ SelSignal \/ SelShutdown \/ SelCtx
                 \/ Retire0 \/ Closing \/ WClose \/ PCloseA \/ PCloseB \/ StopC
              /\ Keep
 \* signals that are pending together are handed over by the Go runtime in the order of their numbers,
@@ -75,6 +78,12 @@ SFatalSeen == /\ Is("fatal_seen") /\ Ln.comp \in Comps /\ FatalLock(Ln.comp)
               /\ fs'[<<ftg[Ln.comp], Ln.comp>>] = "Fatal" /\ ftg[Ln.comp] = Ln.gen /\ Adv
 SFatalQuiet == /\ \E c \in Comps : (FatalLock(c) /\ fs' = fs) \/ FatalUnlock(c)
                /\ Keep
+\* notifiers that run concurrently race for the watcher's buffer: the order of their `ext` lines is
+\* not the order of their sends
+SWatchOrder == /\ wbuf # <<>> /\ wblk # <<>> /\ Keep
+               /\ wbuf' = <<Head(wblk)>> /\ wblk' = <<Head(wbuf)>> \o Tail(wblk)
+               /\ UNCHANGED <<pc, i, cur, mode, state, gen, fs, rmu, fpc, ftg, shutReq, ctxDone, sigReg, sigQ, wclosed,
+                              openA, openB, apend, sdoneG, stopErr, nenv, nfail, o, hist>>
 SExtShutdown == /\ (IsExt("shutdown") \/ Is("ext_done")) /\ Adv
                 /\ \/ ExtShutdown
                    \/ UNCHANGED vars
@@ -97,7 +106,7 @@ SReset ==
   /\ apend' = {} /\ sdoneG' = {} /\ stopErr' = FALSE
   /\ nenv' = 0 /\ nfail' = 0 /\ o' = ObsInit(Comps) /\ hist' = <<>>
 
-SNext == SGet \/ SCreate \/ SStartA \/ SStartB \/ SStopA \/ SStopB \/ SProvSd \/ SReturn \/ SSilent \/ SSigOrder
+SNext == SGet \/ SCreate \/ SStartA \/ SStartB \/ SStopA \/ SStopB \/ SProvSd \/ SReturn \/ SSilent \/ SSigOrder \/ SWatchOrder
          \/ SExtCtx \/ SExtSignal \/ SExtChange \/ SExtFatal \/ SFatalSeen \/ SFatalQuiet \/ SExtShutdown
          \/ SSkip \/ STimeout \/ SReset
 SSpec == SInit /\ [][SNext]_svars
